@@ -752,6 +752,9 @@ where
                     p.mon.ticks += 1;
                     advanced_ok = true;
                     p.mon.game.execute::<C>(reqs, cfg.window);
+                    for (prop, class, what) in p.mon.game.hits.drain(..) {
+                        out.hit(&prop, &class, &scen, &format!("peer {id}: {what}"));
+                    }
                 }
             }
             let Sess::P2P(s) = &mut p.sess else { return };
@@ -1045,7 +1048,10 @@ where
                         out.hit("C06", "catchup", &scen, &format!("spectator {id}: advanced {n} frames in one call with {behind} frames buffered (catchup_speed {catchup}, max_frames_behind {maxbehind})"));
                     }
                     // frame numbering: the game stub numbers from 0; the session from NULL_FRAME
-                    p.mon.game.execute::<C>(reqs, usize::MAX / 4);
+                    p.mon.game.execute::<C>(reqs, game::SPECTATOR_WINDOW);
+                    for (prop, class, what) in p.mon.game.hits.drain(..) {
+                        out.hit(&prop, &class, &scen, &format!("spectator {id}: {what}"));
+                    }
                     for (f, fi) in p.mon.game.call_sims.clone() {
                         if f as usize != p.mon.spec_frames.len() {
                             out.hit("C06", "spectator-frame-order", &scen, &format!("spectator {id}: simulated frame {f} but {} frames were delivered so far", p.mon.spec_frames.len()));
